@@ -137,7 +137,7 @@ def label_vector_cases(ctx, vec):
     out.append(Case(('unique', ev), {'entry': 'np.unique'}, 'c05.unique ' + ev, _call(fu), None, nontriv, desc))
     # get_membership with and without n_labels
     if vec:
-        for k in (None, max(vec) + 2 if max(vec) >= -1 else 1):
+        for k in (None, max(vec) + 2 if max(vec) >= -1 else 1, max(vec) if max(vec) >= 1 else 0):
             def fm():
                 m = get_membership(arr, n_labels=k)
                 m.sort_indices()
@@ -152,7 +152,7 @@ def label_vector_cases(ctx, vec):
 def label_vectors(ctx):
     rng = ctx.rng
     import itertools
-    vs = []
+    vs = [[]]
     for n in range(1, 6):
         for v in itertools.product(range(3), repeat=n):
             vs.append(list(v))
